@@ -195,6 +195,10 @@ var c11Keys = []c11Lines{
 	{"15-bytes", []string{"AAECAwQFBgcICQoLDA0O"}},
 	{"17-bytes", []string{"AAECAwQFBgcICQoLDA0ODxA="}},
 	{"not-base64", []string{"!!!!not*base64!!!!!!!!=="}},
+	// a complete, padded 16-byte key followed by something else on the same line
+	{"valid-then-garbage", []string{c11ValidKey + "xyz"}},
+	{"two-keys-one-line", []string{c11ValidKey + ", " + c11ValidKey}},
+	{"two-keys-concatenated", []string{c11ValidKey + c11ValidKey}},
 	{"empty", []string{""}},
 }
 
@@ -395,7 +399,7 @@ func c11SelfTest(c *fw.Ctx) bool {
 	}
 	// every key variant must land in the model clause its name announces
 	wantClause := map[string]string{"valid": "", "valid-ff": "", "noncanonical-zero": "", "noncanonical-sample": "", "absent": handshake.ClKeyMissing, "two-lines": handshake.ClKeyDuplicate, "valid+blank": handshake.ClKeyDuplicate, "blank+valid": handshake.ClKeyDuplicate,
-		"15-bytes": handshake.ClKeyLength, "17-bytes": handshake.ClKeyLength, "not-base64": handshake.ClKeyNotBase64, "empty": handshake.ClKeyLength}
+		"15-bytes": handshake.ClKeyLength, "17-bytes": handshake.ClKeyLength, "not-base64": handshake.ClKeyNotBase64, "valid-then-garbage": handshake.ClKeyNotBase64, "two-keys-one-line": handshake.ClKeyNotBase64, "two-keys-concatenated": handshake.ClKeyNotBase64, "empty": handshake.ClKeyLength}
 	for _, k := range c11Keys {
 		r := ok
 		r.Key = k.Lines
